@@ -1828,6 +1828,10 @@ class _Date(Vector):
 
 	def __add__(self, other):
 		""" adding integers is adding days """
+		if self._dtype is not None and self._dtype.kind is not date:
+			# Promoted in place (date -> datetime): the elements are datetimes now; the day
+			# arithmetic below would drop their time of day. Same answer as a datetime vector.
+			return super().__add__(other)
 		if isinstance(other, Vector) and other.schema().kind == int:
 			if len(self) != len(other):
 				raise ValueError(f"Length mismatch: {len(self)} != {len(other)}")
